@@ -18,6 +18,8 @@ import (
 	"net"
 	"os"
 	"os/exec"
+	"runtime"
+	"sort"
 	"strconv"
 	"strings"
 	"sync"
@@ -438,6 +440,141 @@ func runCase(c *tcase) {
 	}
 }
 
+// ---------------------------------------------------------------- cancel-race sweep
+// A stalling peer cancels the scan's context the moment it accepts the connection plus a swept
+// busy-wait of 0..100 us, so that the cancellation lands at every point between "dial returned"
+// and "blocked in the reply read".  The property alone judges: Scan must return within the
+// cancellation + slack, far below the data timeout.
+type raceLate struct {
+	Attempt   int     `json:"attempt"`
+	SpinUS    int     `json:"spin_us"`
+	OneByte   bool    `json:"one_byte"`
+	LatencyMS float64 `json:"latency_ms"` // Scan's return minus the cancellation
+	Err       string  `json:"err"`
+	Reported  bool    `json:"reported"`
+}
+
+type raceRow struct {
+	Class      string     `json:"class"`
+	TDial      int        `json:"tdial"`
+	TData      int        `json:"tdata"`
+	SlackMS    int        `json:"slack_ms"`
+	Attempts   int        `json:"attempts"`     // attempts made
+	MaxAttempt int        `json:"max_attempts"` // attempts allowed
+	SpinMaxUS  int        `json:"spin_max_us"`
+	Procs      int        `json:"gomaxprocs"`
+	Late       []raceLate `json:"late"`
+	WorstMS    float64    `json:"worst_ms"`
+	MedianMS   float64    `json:"median_ms"`
+	Errors     int        `json:"harness_errors"`
+}
+
+func raceAttempt(i, tdial, tdata, spinMax int) (lat float64, late raceLate, ok bool) {
+	l, err := net.Listen("tcp4", "127.0.0.1:0")
+	if err != nil {
+		return 0, late, false
+	}
+	defer l.Close()
+	spin := (i * 2) % (spinMax + 1)
+	oneByte := (i/((spinMax+2)/2))%2 == 1
+	ctx, cancel := context.WithCancel(context.Background())
+	defer cancel()
+	cancelAt := make(chan time.Time, 1)
+	release := make(chan struct{})
+	var wg sync.WaitGroup
+	wg.Add(1)
+	go func() {
+		defer wg.Done()
+		conn, err := l.Accept()
+		if err != nil {
+			cancelAt <- time.Time{}
+			return
+		}
+		defer conn.Close()
+		t0 := time.Now()
+		for time.Since(t0) < time.Duration(spin)*time.Microsecond {
+		}
+		at := time.Now()
+		cancel()
+		cancelAt <- at
+		if oneByte {
+			conn.Write([]byte{5})
+		}
+		<-release
+	}()
+	s := socks5.NewScanner(socks5.WithDialTimeout(time.Duration(tdial)*time.Millisecond),
+		socks5.WithDataTimeout(time.Duration(tdata)*time.Millisecond))
+	port := l.Addr().(*net.TCPAddr).Port
+	res, serr := s.Scan(ctx, &scan.Request{DstIP: net.IPv4(127, 0, 0, 1), DstPort: uint16(port)})
+	ret := time.Now()
+	var at time.Time
+	select {
+	case at = <-cancelAt:
+	case <-time.After(2 * time.Second):
+	}
+	close(release)
+	l.Close()
+	wg.Wait()
+	if at.IsZero() {
+		return 0, late, false
+	}
+	lat = float64(ret.Sub(at).Microseconds()) / 1000
+	late = raceLate{Attempt: i, SpinUS: spin, OneByte: oneByte, LatencyMS: lat, Reported: res != nil}
+	if serr != nil {
+		late.Err = serr.Error()
+	}
+	return lat, late, true
+}
+
+func raceSweep(attempts, tdial, tdata, slack, spinMax, par, need int) raceRow {
+	if runtime.GOMAXPROCS(0) < 2 {
+		runtime.GOMAXPROCS(2)
+	}
+	row := raceRow{Class: "cancel-race", TDial: tdial, TData: tdata, SlackMS: slack, MaxAttempt: attempts,
+		SpinMaxUS: spinMax, Procs: runtime.GOMAXPROCS(0)}
+	var mu sync.Mutex
+	var lats []float64
+	next := 0
+	var wg sync.WaitGroup
+	for w := 0; w < par; w++ {
+		wg.Add(1)
+		go func() {
+			defer wg.Done()
+			for {
+				mu.Lock()
+				if next >= attempts || len(row.Late) >= need {
+					mu.Unlock()
+					return
+				}
+				i := next
+				next++
+				mu.Unlock()
+				lat, l, ok := raceAttempt(i, tdial, tdata, spinMax)
+				mu.Lock()
+				row.Attempts++
+				if !ok {
+					row.Errors++
+				} else {
+					lats = append(lats, lat)
+					if lat > row.WorstMS {
+						row.WorstMS = lat
+					}
+					if lat > float64(slack) {
+						row.Late = append(row.Late, l)
+					}
+				}
+				mu.Unlock()
+			}
+		}()
+	}
+	wg.Wait()
+	if len(lats) > 0 {
+		sort.Float64s(lats)
+		row.MedianMS = lats[len(lats)/2]
+	}
+	return row
+}
+
 func maxInt(a, b int) int {
 	if a > b {
 		return a
@@ -557,9 +694,22 @@ func main() {
 	all := flag.Bool("all", false, "all 65536 two-byte replies instead of the sample")
 	par := flag.Int("par", 48, "probes in flight")
 	e2e := flag.String("e2e", "", "path of an sx binary: add end-to-end cases through the command line")
+	race := flag.Int("race", 0, "run ONLY the cancel-race sweep with this many attempts")
+	raceTData := flag.Int("race-tdata", 800, "cancel-race sweep: data timeout, ms")
+	raceSlack := flag.Int("race-slack", 300, "cancel-race sweep: a return later than this after the cancellation is late, ms")
+	raceNeed := flag.Int("race-need", 3, "cancel-race sweep: stop after this many late returns")
 	replay := flag.String("replay", "", "JSON file with a list of cases to run again (inputs are taken, observations overwritten)")
 	flag.Parse()
 
+	if *race > 0 {
+		// warm-up, then the sweep; nothing else
+		raceSweep(12, 1000, *raceTData, *raceSlack, 100, 4, 1000)
+		row := raceSweep(*race, 1000, *raceTData, *raceSlack, 100, 4, *raceNeed)
+		w := hlib.NewOut(*out)
+		w.Put(row)
+		w.Close()
+		return
+	}
 	bh, bhErr = newBlackhole()
 
 	g := &gen{r: hlib.NewRand(*seed)}
